@@ -139,3 +139,56 @@ def gen_instances(classes: Classes, idxs, per_class: int, rng: random.Random, bi
 
 def case_digest(i, a, extra="") -> str:
     return common.digest([i, values.render(a), extra])
+
+
+# ---- process-wide state of kio.serial: reset to "just imported" --------------------------------
+_SERIAL_SNAPSHOT = None
+
+
+def _serial_modules():
+    import sys
+    return [m for n, m in sorted(sys.modules.items())
+            if m is not None and (n == "kio._utils" or n.startswith("kio.serial"))]
+
+
+def snapshot_serial_state():
+    """remember the contents of every module-level mutable container of kio.serial / kio._utils as
+    they are now (call before the first reader or writer is built)"""
+    global _SERIAL_SNAPSHOT
+    import kio.serial  # noqa: F401
+    import kio.serial._implicit_defaults  # noqa: F401
+    snap = []
+    for m in _serial_modules():
+        for name, obj in list(vars(m).items()):
+            if name.startswith("__"):
+                continue
+            if isinstance(obj, dict):
+                snap.append((obj, dict(obj)))
+            elif isinstance(obj, list):
+                snap.append((obj, list(obj)))
+            elif isinstance(obj, set):
+                snap.append((obj, set(obj)))
+    _SERIAL_SNAPSHOT = snap
+
+
+def reset_serial_state():
+    """cold start: clear every functools cache in kio.serial / kio._utils and put every module-level
+    mutable container back to its contents at `snapshot_serial_state()` — wherever the library keeps
+    derived readers/writers, not only where it keeps them today"""
+    if _SERIAL_SNAPSHOT is None:
+        snapshot_serial_state()
+    for m in _serial_modules():
+        for name, obj in list(vars(m).items()):
+            cc = getattr(obj, "cache_clear", None)
+            if callable(cc):
+                try:
+                    cc()
+                except Exception:  # noqa: BLE001
+                    pass
+    for obj, orig in _SERIAL_SNAPSHOT:
+        if isinstance(obj, dict):
+            obj.clear(); obj.update(orig)
+        elif isinstance(obj, list):
+            obj[:] = orig
+        else:
+            obj.clear(); obj.update(orig)
